@@ -112,7 +112,8 @@ class ECDH1PUAlgModel(JWEKeyAgreement):
 
         sender_key = recipient.sender_key
         recipient_key = recipient.recipient_key
-        assert sender_key is not None
+        if sender_key is None:
+            raise ValueError(f'Algorithm "{self.name}" requires a "sender_key"')
         assert recipient_key is not None
 
         self.check_key_type(recipient_key)
